@@ -190,18 +190,28 @@ pub fn peer_stream_scenarios(prop: &str, quick: bool, oracles: u32) -> Vec<Scena
 /// still in the window - the next packets on channel 2. Whatever the sender remembers about a channel's last Reliable packet must not
 /// be mistaken for the packet that carries the same id one turn later.
 pub fn full_turn_scenario(prop: &str, oracles: u32) -> Scenario {
-    use SendMode::*;
-    let per_round = 2100usize; let rounds = (1usize << 20) / per_round + 1;
-    let mut ops: Vec<Op> = vec![send(0, 0, 2, Reliable, 20)];
-    // the last burst ends exactly one turn after the Reliable packet (ids p+1 ..= p+2^20-1), the packets of channel 2 follow in the same round
-    let total = (1usize << 20) - 1;
-    for k in 0..total { ops.push(send(1 + k / per_round, 0, (k % 2) as u8, Unreliable, 8)); }
-    let last = 1 + (total - 1) / per_round;
-    ops.push(send(last, 0, 2, Unreliable, 30)); ops.push(send(last, 0, 2, Reliable, 31)); ops.push(send(last + 1, 0, 2, Persistent, 32)); ops.push(send(last + 2, 0, 0, Reliable, 33));
-    let _ = rounds;
-    let si = Arc::new(ScriptInfo::new(crate::lwprops::warm(&ops, 30)));
-    let env = LwEnv { fates: FATES_NONE, deltas: &[20], dev_rounds: 0, dev_start: 0, max_rounds: 30 + last + 3000, skip_choice: false, flush_choice: false, blackouts: &[], stop_when_idle: true, fair_delta: 20, slow_after: usize::MAX, slow_delta: 250, fuel: 20_000_000, shifts: &[] };
-    spec(&format!("{}.full-turn-of-the-packet-id-space", prop), &LwCfg { pwin: 4096, fwin: 4096, latency: 1, ..LwCfg::small() }, &si, env, 0, oracles)
+    // (the script of a million packets is built when the scenario is first run, not whenever the scenario list is assembled)
+    let cell: Arc<std::sync::OnceLock<Scenario>> = Arc::new(std::sync::OnceLock::new());
+    let tag = format!("{}.full-turn-of-the-packet-id-space", prop);
+    let name = format!("{}|pw4096fw4096lat1|R on ch2, 2^20 Unreliable packets of 8 bytes on ch0/ch1 (2100 per round), then U R P on ch2|ideal network|d0", tag);
+    let run = move |ch: &mut Chooser| -> ExecResult {
+        let sc = cell.get_or_init(|| {
+            use SendMode::*;
+            let per_round = 2100usize;
+            let mut ops: Vec<Op> = vec![send(0, 0, 2, Reliable, 20)];
+            // the last packet of the last burst carries the Reliable packet's id one turn later (ids p+1 ..= p+2^20), on another channel; the
+            // packets of channel 2 follow in the same round, while it is still in the window
+            let total = 1usize << 20;
+            for k in 0..total { ops.push(send(1 + k / per_round, 0, (k % 2) as u8, Unreliable, 8)); }
+            let last = 1 + (total - 1) / per_round;
+            ops.push(send(last, 0, 2, Unreliable, 30)); ops.push(send(last, 0, 2, Reliable, 31)); ops.push(send(last + 1, 0, 2, Persistent, 32)); ops.push(send(last + 2, 0, 0, Reliable, 33));
+            let si = Arc::new(ScriptInfo::new(crate::lwprops::warm(&ops, 30)));
+            let env = LwEnv { fates: FATES_NONE, deltas: &[20], dev_rounds: 0, dev_start: 0, max_rounds: 30 + last + 3000, skip_choice: false, flush_choice: false, blackouts: &[], stop_when_idle: true, fair_delta: 20, slow_after: usize::MAX, slow_delta: 250, fuel: 20_000_000, shifts: &[] };
+            spec(&tag, &LwCfg { pwin: 4096, fwin: 4096, latency: 1, ..LwCfg::small() }, &si, env, 0, oracles)
+        });
+        (sc.run)(ch)
+    };
+    Scenario { name, d: 0, run: Box::new(run) }
 }
 
 fn c05(quick: bool) -> PropRun {
